@@ -1,3 +1,4 @@
+import MiniconfVerif.Model.Helpers
 import MiniconfVerif.Model.Tree
 import MiniconfVerif.Model.Codec
 import MiniconfVerif.Model.TreeDriver
@@ -307,7 +308,14 @@ def runOp (t : Tree) (f : List String) : Option OpOut :=
           let r := match o.res, o.leaf, o.val with
             | .ok d, some k, some v =>
               match leafJson k v with
-              | some txt => if name = "jget" then s!"ok {byteLen txt} {encStr txt}" else s!"ok {d} {encStr txt}"
+              | some txt =>
+                if name = "jget" then
+                  -- `json::get_by_key`: the walk, then `ser.end()` = bytes written (Model/Helpers.getThenEnd)
+                  match getThenEnd o.res (byteLen txt) with
+                  | .ok n => s!"ok {n} {encStr txt}"
+                  | .walk r => resStr r
+                  | .final => "final"
+                else s!"ok {d} {encStr txt}"
               | none => "ok ?"
             | r, _, _ => resStr r
           some (fin o r false)
@@ -321,7 +329,12 @@ def runOp (t : Tree) (f : List String) : Option OpOut :=
             | .ok d, some k =>
               if name = "de" then s!"ok {d}" else
               match jsonDecLeaf k p with
-              | some (_, rest) => if (skipWs rest).isEmpty then s!"ok {byteLen p}" else "final"
+              | some (_, rest) =>
+                -- `json::set_by_key`: the walk, then `de.end()` (only whitespace may remain) (Model/Helpers.setThenEnd)
+                match setThenEnd o.res (if (skipWs rest).isEmpty then some (byteLen p) else none) with
+                | .ok n => s!"ok {n}"
+                | .final => "final"
+                | .walk r => resStr r
               | none => "ok ?"
             | r, _ => resStr r
           some (fin o r true)
